@@ -204,11 +204,11 @@ CHECKS = {
             {"harness": "HarnessC12Write", "params": {"len": 3, "timeouts": 2}, "reach": ["c12:write-succeeded"], "tier": "quick"},
             {"harness": "HarnessC12Read", "params": {"len": 3, "timeouts": 2}, "reach": ["c12:read-succeeded"], "tier": "quick"},
             {"harness": "HarnessC12Send", "params": {"sends": 2, "timeouts": 2}, "reach": ["c12:send-returned"], "tier": "quick"},
-            {"harness": "HarnessC12Receive", "params": {"frames": 2, "timeouts": 1, "frag": 1}, "reach": ["c12:received-one"], "tier": "quick"},
+            {"harness": "HarnessC12Receive", "grid": {"cancel": [0, 1]}, "params": {"frames": 2, "timeouts": 1, "frag": 1}, "reach": ["c12:received-one"], "tier": "quick"},
             {"harness": "HarnessC12Write", "grid": {"len": [4, 5]}, "params": {"timeouts": 3}, "reach": ["c12:write-succeeded"], "tier": "thorough"},
             {"harness": "HarnessC12Read", "params": {"len": 5, "timeouts": 3}, "reach": ["c12:read-succeeded"], "tier": "thorough"},
             {"harness": "HarnessC12Send", "params": {"sends": 3, "timeouts": 3}, "reach": ["c12:send-returned"], "tier": "thorough"},
-            {"harness": "HarnessC12Receive", "grid": {"garbage": [0, 1]}, "params": {"frames": 2, "timeouts": 2, "frag": 2}, "reach": ["c12:received-one"], "tier": "thorough"},
+            {"harness": "HarnessC12Receive", "grid": {"garbage": [0, 1], "cancel": [0, 1]}, "params": {"frames": 2, "timeouts": 2, "frag": 2}, "reach": ["c12:received-one"], "tier": "thorough"},
         ],
         "bounds": {"quick": {"buffer": 3, "timeouts": 2, "frames": 2, "fragments": 1}, "thorough": {"buffer": 5, "timeouts": 3, "frames": 2, "fragments": 2}},
         "out": ["json.Encoder/Decoder internals", "a Read that returns data and an error", "the TLS record layer"],
